@@ -6,7 +6,7 @@ use vtkio::model::{CellType, DataSet, VertexNumbers};
 use vtkio::{IOBuffer, Vtk};
 
 use crate::attributes::AttrStorageManager;
-use crate::cmap::{BuilderError, CMap2, DartIdType, VertexIdType};
+use crate::cmap::{BuilderError, CMap2, DartIdType, NULL_DART_ID, VertexIdType};
 use crate::geometry::{CoordsFloat, Vertex2};
 
 // --- Custom
@@ -153,23 +153,70 @@ pub fn build_2d_from_cmap_file<T: CoordsFloat>(
         ));
     }
 
+    let b0 = b0
+        .into_iter()
+        .collect::<Result<Vec<DartIdType>, _>>()
+        .map_err(|_| BuilderError::BadValue("could not parse a b0 value"))?;
+    let b1 = b1
+        .into_iter()
+        .collect::<Result<Vec<DartIdType>, _>>()
+        .map_err(|_| BuilderError::BadValue("could not parse a b1 value"))?;
+    let b2 = b2
+        .into_iter()
+        .collect::<Result<Vec<DartIdType>, _>>()
+        .map_err(|_| BuilderError::BadValue("could not parse a b2 value"))?;
+
+    // the file may have been damaged or edited by hand: check that the images describe a
+    // well-formed map before building anything from them
+    let n_darts = f.meta.2 + 1;
+    if b0[0] != NULL_DART_ID || b1[0] != NULL_DART_ID || b2[0] != NULL_DART_ID {
+        return Err(BuilderError::InconsistentData(
+            "the null dart has a non-null image",
+        ));
+    }
+    for d in 1..n_darts {
+        let (b0d, b1d, b2d) = (b0[d] as usize, b1[d] as usize, b2[d] as usize);
+        if b0d >= n_darts || b1d >= n_darts || b2d >= n_darts {
+            return Err(BuilderError::InconsistentData(
+                "a beta image is not an existing dart",
+            ));
+        }
+        if (b1d != 0 && b0[b1d] as usize != d) || (b0d != 0 && b1[b0d] as usize != d) {
+            return Err(BuilderError::InconsistentData(
+                "beta 0 is not the inverse of beta 1",
+            ));
+        }
+        if b2d != 0 && (b2d == d || b2[b2d] as usize != d) {
+            return Err(BuilderError::InconsistentData(
+                "beta 2 is not an involution without fixed point",
+            ));
+        }
+    }
+
     for (d, b0d, b1d, b2d) in multizip((
         (1..=f.meta.2),
-        b0.into_iter().skip(1),
-        b1.into_iter().skip(1),
-        b2.into_iter().skip(1),
+        b0.iter().skip(1),
+        b1.iter().skip(1),
+        b2.iter().skip(1),
     )) {
-        let b0d = b0d.map_err(|_| BuilderError::BadValue("could not parse a b0 value"))?;
-        let b1d = b1d.map_err(|_| BuilderError::BadValue("could not parse a b1 value"))?;
-        let b2d = b2d.map_err(|_| BuilderError::BadValue("could not parse a b2 value"))?;
-        map.set_betas(d as DartIdType, [b0d, b1d, b2d]);
+        map.set_betas(d as DartIdType, [*b0d, *b1d, *b2d]);
     }
 
     if let Some(unused) = f.unused {
         for u in unused.split_whitespace() {
-            let d = u
+            let d: DartIdType = u
                 .parse()
                 .map_err(|_| BuilderError::BadValue("could not parse an unused ID"))?;
+            if d == NULL_DART_ID || d as usize >= n_darts {
+                return Err(BuilderError::InconsistentData(
+                    "an unused ID is not an existing dart",
+                ));
+            }
+            if !map.is_free(d) || map.is_unused(d) {
+                return Err(BuilderError::InconsistentData(
+                    "an unused dart is linked or listed twice",
+                ));
+            }
             map.remove_free_dart(d);
         }
     }
@@ -194,6 +241,11 @@ pub fn build_2d_from_cmap_file<T: CoordsFloat>(
                 .map_err(|_| BuilderError::BadValue("could not parse vertex y coordinate"))?;
             if it.next().is_some() {
                 return Err(BuilderError::BadValue("incorrect vertex line format"));
+            }
+            if id as usize >= n_darts {
+                return Err(BuilderError::InconsistentData(
+                    "a vertex ID is not an existing dart",
+                ));
             }
             map.force_write_vertex(id, (T::from(x).unwrap(), T::from(y).unwrap()));
         }
